@@ -99,6 +99,10 @@ def gen_str(rng, maxlen=12):
 
 
 def gen_operand(rng, live, ncolors, depth=0, allow_boom=False):
+    if rng.random() < 0.04:
+        # a text that another part of the package produced (a line of a rendered table, of a pretty-printed value):
+        # not assembled with CHText's own operations, its pieces need not be merged or non-empty
+        return {"fl": rng.randrange(16)}
     r = rng.random()
     if r < 0.30:
         return {"s": gen_str(rng)}
@@ -331,6 +335,7 @@ class World:
         self.fmt_of_style = {stl: f for stl, f in zip(self.styles, self.fmts)}
         self.max_cells = LONG_MAX_CELLS if trace.get("long") else MAX_CELLS
         self.sub_cls = type("UserText", (color.CHText,), {"__doc__": "a user's subclass that changes nothing"})
+        self._foreign = None
         self.real = {}      # handle -> real object
         self.model = {}     # handle -> MObj (shared between aliases)
         self.stats = {"ops_done": 0, "handles_checked": 0, "alias_ops": 0, "inplace_on_shared": 0, "faults_fired": 0,
@@ -338,7 +343,29 @@ class World:
                       "multi_chunk_objects": 0, "index_errors": 0, "returned_receiver": 0, "inplace_ops": 0}
 
     # ---- operands
+    def foreign_text(self, i):
+        if self._foreign is None:
+            from ak.ppobj import PPTable, PrettyPrinter
+            color = self.color
+            conf = color.ColorsConfig({"TABLE": {"BORDER": "CYAN"}, "RECORD.NUMBER": "YELLOW:bold", "NAME": "GREEN"})
+            t = PPTable([(1, "a"), (22, "bb"), (333, "a value that gets cut")], fields=["id", "name"],
+                        fmt="id,name:1-6", header="A header much longer than the table itself", footer="")
+            found = list(t.ch_text(colors_conf=conf))
+            found += list(PrettyPrinter()({"k": [1, 2, {"z": None}], "s": "text", "e": []}, colors_conf=conf))
+            self._foreign = [x for x in found if isinstance(x, color.CHText)]
+            self.stats["foreign_texts"] = len(self._foreign)
+            # their colours, for the oracle's "same text built in one go": a piece of that colour with another text
+            for x in self._foreign:
+                for piece in x.chunks:
+                    if piece.text:
+                        st = sgr.parse_cells(str(piece))[0][1]
+                        if st != sgr.PLAIN:
+                            self.fmt_of_style.setdefault(st, piece.clone)
+        return self._foreign[i % len(self._foreign)]
+
     def real_operand(self, o):
+        if "fl" in o:
+            return self.foreign_text(o["fl"])
         if "r" in o:
             # a plain str that happens to be what a coloured chunk renders to
             return str(self.fmts[o["r"] % len(self.fmts)](o["s"]))
@@ -359,7 +386,9 @@ class World:
 
     def model_operand(self, o, out):
         """appends cells to `out`; raises BoomHit(cells appended so far) at an injected fault"""
-        if "r" in o:
+        if "fl" in o:
+            out.extend(sgr.parse_cells(str(self.foreign_text(o["fl"]))))
+        elif "r" in o:
             out.extend((ch, sgr.PLAIN) for ch in str(self.fmts[o["r"] % len(self.fmts)](o["s"])))
         elif "s" in o and "c" not in o:
             out.extend((ch, sgr.PLAIN) for ch in o["s"])
